@@ -24,6 +24,6 @@ def runTo (s : Nat) (ok : Bool) : List Label :=
    .handler s .CheckedOutputs, .publish s, .handler s .SuperficialDiffsChanged, .publish s,
    .handler s .ThoroughDiffsChanged, .publish s, .handler s .DiffsHasChanged, .publish s,
    .handler s .StartProcess, .publish s, .handler s .WaitProcess, .publish s, .procExit s ok,
-   .handler s (if ok then .ProcessCompletedSuccessfully else .ProcessReturnedNonZero), .publish s] ++ deliverN s 11
+   .handler s (if ok then .ProcessCompletedSuccessfully else .ProcessReturnedNonZero), .publish s] ++ deliverN s 10
 
 end Sched
